@@ -38,8 +38,10 @@ LEVEL_TEXT = ("Lean 4 proofs over ALL namespace trees and names: whenever task_w
               "(ns_config_leaf_outermost_wins, via getLeaf_mergeT), replacing any collection off the path changes "
               "nothing (siblings_contribute_nothing), and aliases / default shortcuts give the same settings as the "
               "primary name (same_for_alias_and_default_shortcut); the model is tied to invoke.collection + "
-              "merge_dicts on every run by a differential check on generated trees and a direct recursive-merge oracle, "
-              "freshness by mutation and identity scan of the real result")
+              "merge_dicts on every run by a differential check on generated trees and a direct recursive-merge oracle; "
+              "freshness is proved on a minimal object model (dicts with addresses, copy_dict/merge_dicts allocating: "
+              "configuration_fresh, configuration_fresh_for_lookup, shown to compute the value model) and established "
+              "on the real result by mutation and identity scan")
 TECHNIQUE = ("Lean 4 theorems by induction over the namespace tree on top of the nested-dict merge lemmas + "
              "model/implementation correspondence + direct Python oracle (independent recursive merge, mutation test)")
 
